@@ -19,6 +19,9 @@ func (e *Engine) specFnsIn(x Expr, out map[string]bool) {
 		if _, ok := e.Specs[v.Fn]; ok {
 			out[v.Fn] = true
 		}
+		if v.Fn == "dmul" || v.Fn == "ddiv" {
+			out[v.Fn] = true
+		}
 		if d, ok := e.Defs[v.Fn]; ok {
 			e.specFnsIn(d.Body, out)
 		}
@@ -65,7 +68,7 @@ func (u *Unit) FinishAxioms() {
 			}
 			all := true
 			for f := range m {
-				if !u.specFnsUsed[f] {
+				if !u.specFnsUsed[f] && !u.D.used[f] {
 					all = false
 				}
 			}
